@@ -157,11 +157,13 @@ PROFILES = {
     },
     'C13': {
         'gen': gen_c13.gen_c13,
+        'gen_indexed': gen_c13.gen_c13_indexed,
+        'fixed_runs': lambda tier: gen_c13.GRID_SIZE,
         'props': ['C13'],
         'coverage': c13_coverage,
         'warnings': c13_warnings,
         'level': 'exploration',
-        'quick_runs': 8000,
+        'quick_runs': 9500,
         'thorough_runs': 200000,
     },
     'C08': {
